@@ -66,12 +66,15 @@ impl Offset {
                     #[cfg(astrolabe_verif)]
                     let result = crate::verif::override_localtime(result);
                     match result {
-                        Ok(bytes) => {
-                            TimeZone::from_tzif(&bytes)
-                                .unwrap()
-                                .to_local_time_type(DateTime::now().timestamp())
-                                .utoff
-                        }
+                        // Falls back to UTC if the file can't be read or parsed
+                        Ok(bytes) => match TimeZone::from_tzif(&bytes) {
+                            Ok(time_zone) => {
+                                time_zone
+                                    .to_local_time_type(DateTime::now().timestamp())
+                                    .utoff
+                            }
+                            Err(_) => 0,
+                        },
                         Err(_) => 0,
                     }
                 };
